@@ -69,6 +69,8 @@ enum Tag {
     Fault,
     /// call made from procedure level `k` (0 = main module) into level `k + 1`
     Call(usize),
+    /// the call procedure level `k` makes to itself (direct recursion through one call site)
+    Rec(usize),
 }
 
 #[derive(Clone, Debug)]
@@ -235,6 +237,8 @@ struct Program {
     items: Vec<Item>,
     depth: usize,
     nest_total: usize,
+    /// per procedure level k (index k - 1): how many times it calls itself before it goes on (0 = not recursive)
+    rec: Vec<usize>,
 }
 
 /// A program with `depth` nested procedure calls; the payload (fault or nothing) sits in the innermost level.
@@ -284,12 +288,27 @@ fn program(rng: &mut Rng, kind: FaultKind, inject: bool, depth: usize) -> Progra
         nest_total = nest_total.max(nest);
         bodies.push(body(rng, &mut uniq, nest, payload, true));
     }
+    // direct recursion (after a wave-7 seed that dropped repeated frames from the reported call sites): a third
+    // of the procedures first call themselves 1..3 times through ONE call site (the argument grows by 100 per
+    // activation) and only the innermost activation goes on to the payload
+    let rec: Vec<usize> = (0..depth).map(|_| if rng.chance(1, 3) { 1 + rng.below(3) as usize } else { 0 }).collect();
+    for k in 1..=depth {
+        let r = rec[k - 1];
+        if r > 0 {
+            let text = if is_fn[k - 1] { format!("R{}% = F{}%(N% + 100)", k, k) } else { format!("P{} N% + 100", k) };
+            let mut b = vec![alone(format!("IF N% < {} THEN", 100 * r)), Item { text, alone: false, tag: Tag::Rec(k) }, alone("ELSE")];
+            b.extend(bodies[k].clone());
+            b.push(alone("END IF"));
+            bodies[k] = b;
+        }
+    }
     items.extend(bodies[0].clone());
     if rng.chance(1, 2) {
         items.push(simple("END"));
     }
-    // a third of the procedures are STATIC (their activation records are entered by a different instruction)
-    let is_static: Vec<bool> = (0..depth).map(|_| rng.chance(1, 3)).collect();
+    // a third of the procedures are STATIC (their activation records are entered by a different instruction);
+    // a recursive one is not (the activations of a STATIC procedure share its parameter)
+    let is_static: Vec<bool> = (0..depth).map(|k| rec[k] == 0 && rng.chance(1, 3)).collect();
     for k in 1..=depth {
         let st = if is_static[k - 1] { " STATIC" } else { "" };
         if is_fn[k - 1] {
@@ -303,7 +322,7 @@ fn program(rng: &mut Rng, kind: FaultKind, inject: bool, depth: usize) -> Progra
             items.push(alone("END SUB"));
         }
     }
-    Program { items, depth, nest_total }
+    Program { items, depth, nest_total, rec }
 }
 
 /// How the first (handled) error is handled.
@@ -467,7 +486,7 @@ fn history_program(rng: &mut Rng, kind: FaultKind, inject: bool, d1: usize, d2: 
         Place::OtherProc => d2,
         Place::SameProc => d1,
     };
-    Program { items, depth, nest_total }
+    Program { items, depth, nest_total, rec: vec![] }
 }
 
 struct Rendered {
@@ -745,6 +764,15 @@ fn run_cases(seed: u64, cases: Vec<usize>) -> Out {
         // call sites, innermost first
         let mut call_rows: Vec<u32> = vec![];
         for level in (0..faulty.depth).rev() {
+            // the activations of a recursive callee entered through its own call site come first
+            let r = faulty.rec.get(level).copied().unwrap_or(0);
+            if r > 0 {
+                let ri = faulty.items.iter().position(|it| it.tag == Tag::Rec(level + 1)).expect("recursive call item");
+                for _ in 0..r {
+                    call_rows.push(pos[rf.spans[ri].0].0);
+                }
+                out.bump(&format!("recursion.depth-{}", r));
+            }
             let ci = faulty.items.iter().position(|it| it.tag == Tag::Call(level)).expect("call item");
             call_rows.push(pos[rf.spans[ci].0].0);
         }
